@@ -125,7 +125,12 @@ def visit_schema(st, sid, schema, values, ntrans):
 def plan(tier, seed):
     items, meta = lattice.plan_items(tier, seed)
     meta["exhaustive"] = True
-    return {"items": items, "meta": meta}
+    # first use: every single-atom schema once more, each in a process that has only imported the library
+    from mc.gen import atoms as A
+
+    first = [("one", i) for (i,) in A.depth1()]
+    meta["first_use_states_in_pristine_processes"] = len(first)
+    return {"items": items, "pristine_items": first, "meta": meta}
 
 
 def work(item):
